@@ -179,6 +179,11 @@ class Endpoint(object):
         else:
             self.delivered.append(item)
             r.feed_data(item)
+            # eager_eof: the peer's close travels right behind its last octets (the end of the stream is already known
+            # when the reader is handed that last piece); default: it is delivered at the next blocked read
+            if getattr(self, 'eager_eof', False) and self.out and self.out[0] is _EOF:
+                self.out.popleft()
+                r.feed_eof()
 
 
 class BaseServer(object):
